@@ -276,7 +276,9 @@ CHECKS.append({
     "technique": "Coq proof: DFT development over Coquelicot C (geometric sums of roots of unity -> sum(irfft2 F) = Re F[0,0] for every N), zero-frequency "
                  "lemmas on regenerated kernels/ramps, and a Hermite/Bernstein-hull certificate (lra on the table dumped from the running renderer) bounding "
                  "the amplitude sum for EVERY n; interval correspondence of the irfft2 and interpolation models; implementation-side total-flux oracle",
-    "text": "PARTIAL.  Ten theorems (Props/C01.v; the tenth: the sum over all pixels of the centred convolution is total(scene) x sum(psf), spatial form, every N): the Fourier Gaussian mixture's DC value is the sum of its amplitudes, the point source's is flux, both "
+    "text": "PARTIAL.  Twelve theorems (Props/C01.v; 10: the sum over all pixels of the centred convolution is total(scene) x sum(psf), spatial form, every N; 11-12: for integer 2n the "
+            "light of the generated 1-D profile between two radii is flux x (P(2n,tR) - P(2n,ta)) with P the regularised incomplete gamma integral, and differs from flux by at most "
+            "|flux| (ta^m/m! + m (m+1)!/tR^2) - the flux argument is the total light).  Theorems 1-9: the Fourier Gaussian mixture's DC value is the sum of its amplitudes, the point source's is flux, both "
             "PSF ramps are 1 at zero frequency; the sum over all pixels of irfft2(F) is Re F[0,0] for every N>=1 and every half-plane array, so FFT "
             "convolution multiplies totals by sum(psf); composites split flux f/1-f; for EVERY Sersic index in [0.8,6] the interpolated unit-flux "
             "amplitudes sum to [0.955,1.045] ([0.98,1.02] on [1.25,4]).  Hence the Fourier renderer's total is sum(psf)*flux*S_T(n) for all positions, "
